@@ -283,6 +283,8 @@ fn constraints(store: &mut GraphStore) -> String {
 ///   fam 0  MATCH … SET i0, i1, …            fam 1  MATCH … SET v1.k4 = 7, v1 += {…, k3: <failing>}
 ///   fam 2  MERGE … ON CREATE SET i0, i1, …  fam 3  MERGE … ON MATCH SET i0, i1, …
 fn gen_multi(_rng: &mut Rng, fam: u64, constrained: bool, m: usize, j: usize, kind: Kind, n: usize, pos: usize) -> Planted {
+    // an unbound variable fails on whichever row is evaluated first
+    let pos = if kind == Kind::Unbound { 0 } else { pos };
     let indexed = !constrained;
     let label: u32 = if constrained { 0 } else { 1 };
     let mut setup: Vec<String> = vec!["CREATE (v1:L2 {k0: 1})-[:T0]->(v2:L2 {k0: 2})".into()];
